@@ -67,18 +67,35 @@ Qed.
 
 Lemma f1_factor_preamble f : Enum.factor_preamble_size fb f = ROk 0%Z.
 Proof.
-  unfold Enum.factor_preamble_size. rewrite (f0_crossings fb (f0_unpack fb HF)). cbn [length seq filter nth].
-  destruct (memb f c); [|reflexivity]. rewrite (f0_block_preamble fb HF). cbn [rbind]. reflexivity.
+  unfold Enum.factor_preamble_size.
+  set (idxs := filter (fun i => memb f (nth i (fl_crossings fb) [])) (seq 0 (length (fl_crossings fb)))).
+  assert (Hidx : forall i, In i idxs -> i < length (fl_crossings fb)).
+  { intros i Hi. unfold idxs in Hi. apply filter_In in Hi. destruct Hi as [Hi _]. apply in_seq in Hi. lia. }
+  destruct idxs as [|i rest]; [reflexivity|].
+  rewrite (f0_block_preamble_at fb HF i (Hidx i (or_introl eq_refl))). cbn [rbind].
+  assert (G : forall l, (forall j, In j l -> j < length (fl_crossings fb)) ->
+              (fix go (is : list nat) : rres Z :=
+                 match is with
+                 | [] => ROk 0%Z
+                 | j :: t => c_size <-- block_preamble_size fb j ;;; if (0 =? c_size)%Z then go t else RErr ValueError
+                 end) l = ROk 0%Z).
+  { induction l as [|j t IH]; intros Hl; [reflexivity|].
+    rewrite (f0_block_preamble_at fb HF j (Hl j (or_introl eq_refl))). cbn [rbind Z.eqb].
+    apply IH. intros x Hx. apply Hl. right. exact Hx. }
+  apply G. intros j Hj. apply Hidx. right. exact Hj.
 Qed.
 
 Lemma f1_pre_of f : CodeSem.pre_of fb f = 0.
 Proof.
-  unfold CodeSem.pre_of, Compile.factor_preamble_size. rewrite (f0_crossings fb (f0_unpack fb HF)).
-  cbn [Compile.preambles_of].
-  assert (Hp : Compile.preamble_size fb 0 = 0).
-  { unfold Compile.preamble_size, post_preamble_size.
-    rewrite (f0_preambles fb (f0_unpack fb HF)), (f0_alpre fb (f0_unpack fb HF)). destruct (fl_alignment fb); reflexivity. }
-  rewrite Hp. destruct (existsb (Nat.eqb f) c); reflexivity.
+  unfold CodeSem.pre_of, Compile.factor_preamble_size.
+  assert (G : forall cs i x, In x (Compile.preambles_of fb f i cs) -> x = 0).
+  { induction cs as [|ci t IH]; intros i x Hx; [destruct Hx|]. cbn [Compile.preambles_of] in Hx.
+    apply in_app_iff in Hx. destruct Hx as [Hx | Hx]; [|eapply IH; exact Hx].
+    destruct (existsb (Nat.eqb f) ci); [|destruct Hx]. destruct Hx as [E | []]. rewrite <- E. apply (f0_preamble_size fb HF). }
+  destruct (Compile.preambles_of fb f 0 (fl_crossings fb)) as [|p rest] eqn:E; [reflexivity|].
+  assert (Hp : p = 0) by (apply (G (fl_crossings fb) 0); rewrite E; left; reflexivity). subst p.
+  replace (forallb (Nat.eqb 0) rest) with true; [reflexivity|]. symmetry. apply forallb_forall. intros x Hx.
+  apply Nat.eqb_eq. symmetry. apply (G (fl_crossings fb) 0). rewrite E. right. exact Hx.
 Qed.
 
 (** the k-in-a-row family *)
@@ -225,11 +242,27 @@ Proof.
     cbn [CodeSem.code_constraint forallb]. rewrite andb_true_r. apply f1_sequential; assumption.
 Qed.
 
-(** the whole rejection test *)
-Theorem f1_violated (en : enumerator) : eb_has_cc (en_base en) = false ->
+(** the constraint loop of the rejection test *)
+Theorem f1_constraints_loop :
+  (fix go (cs : list fconstraint) : rres bool :=
+     match cs with
+     | [] => ROk false
+     | c0 :: t => ok <-- constraint_conforms fb r c0 ;;; if ok then go t else ROk true
+     end) (fl_constraints fb) = ROk (negb (forallb (constraint_ok S0 s) (s_constraints S0))).
+Proof.
+  rewrite (f0_sem_constraints fb HF).
+  pose proof (f0_constraints fb (f0_unpack fb HF)) as Hc.
+  induction (fl_constraints fb) as [|k t IH]; [reflexivity|].
+  rewrite (f1_conform k (Hc k (or_introl eq_refl))). cbn [rbind flat_map]. rewrite forallb_app.
+  destruct (forallb (constraint_ok S0 s) (CodeSem.code_constraint fb k)); [|reflexivity].
+  cbn [andb]. apply IH. intros x Hx. apply Hc. right. exact Hx.
+Qed.
+
+(** the whole rejection test when there is one crossing only *)
+Theorem f1_violated (en : enumerator) : eb_has_cc (en_base en) = false -> length (fl_crossings fb) = 1 ->
   are_constraints_violated fb en r = ROk (negb (forallb (constraint_ok S0 s) (s_constraints S0))).
 Proof.
-  intros Hcc. unfold are_constraints_violated. rewrite (f0_sem_constraints fb HF).
+  intros Hcc Hone. unfold are_constraints_violated. rewrite (f0_sem_constraints fb HF).
   pose proof (f0_constraints fb (f0_unpack fb HF)) as Hc.
   assert (H : (fix go (cs : list fconstraint) : rres bool :=
                  match cs with
@@ -241,7 +274,7 @@ Proof.
     rewrite (f1_conform k (Hc k (or_introl eq_refl))). cbn [rbind flat_map]. rewrite forallb_app.
     destruct (forallb (constraint_ok S0 s) (CodeSem.code_constraint fb k)); [|reflexivity].
     cbn [andb]. apply IH. intros x Hx. apply Hc. right. exact Hx. }
-  rewrite H. cbn [rbind]. rewrite Hcc. rewrite (f0_crossings fb (f0_unpack fb HF)). cbn [length Nat.ltb Nat.leb orb].
+  rewrite H. cbn [rbind]. rewrite Hcc. rewrite Hone. cbn [Nat.ltb Nat.leb orb].
   destruct (negb (forallb (constraint_ok S0 s) (flat_map (CodeSem.code_constraint fb) (fl_constraints fb)))); reflexivity.
 Qed.
 
